@@ -43,6 +43,33 @@ def f_lin(cache, kind, rep):
     return cache.get(("lin", kind, rep), mk)
 
 
+def _wedge(kind, xi):
+    """se(3): xi = (v, w) -> [[w^, v],[0,0]];  se_2(3): xi = (p, v, w) -> [[w^, v, p],[0,0,0],[0,0,0]]"""
+    if kind == "se3":
+        M = np.zeros((4, 4)); M[:3, :3] = hat(xi[3:6]); M[:3, 3] = xi[0:3]
+    else:
+        M = np.zeros((5, 5)); M[:3, :3] = hat(xi[6:9]); M[:3, 3] = xi[3:6]; M[:3, 4] = xi[0:3]
+    return M
+
+
+def _vee(kind, M):
+    w = np.array([M[2, 1], M[0, 2], M[1, 0]])
+    if kind == "se3":
+        return np.concatenate([M[:3, 3], w])
+    return np.concatenate([M[:3, 4], M[:3, 3], w])
+
+
+def ad_numeric(kind, xi):
+    n = len(xi)
+    W = _wedge(kind, np.asarray(xi, float))
+    cols = []
+    for k_ in range(n):
+        e = np.zeros(n); e[k_] = 1.0
+        Ek = _wedge(kind, e)
+        cols.append(_vee(kind, W @ Ek - Ek @ W))
+    return np.array(cols).T
+
+
 def call(f, *a):
     r = f(*a)
     out = [np.array(x) for x in (r if isinstance(r, (list, tuple)) else [r])]
@@ -107,6 +134,26 @@ def replay_own(run, cache, tv):
             M3 = E.mat_se23(np.eye(3) + X + X2 / 2, -(np.eye(3) + X / 2 + X2 / 6) @ rho, (np.eye(3) + X / 2 + X2 / 6) @ rho)
             encl(f"se23->{rep}/exp/enclosure/k{k}", out[0], M3, "SE_2(3) exp outside its enclosure")
             encl(f"se23->{rep}/logexp/enclosure/k{k}", out[3].flatten(), np.concatenate([rho, -rho, x]), "SE_2(3) log(exp xi) outside its enclosure")
+        # se(3) / se_2(3) Jacobians with an O(1) translation: J_l = I + ad/2 + ad^2/6 + R,  |R| <= |x|^3 + |x|^2 |rho|
+        # (ad^k has diagonal blocks X^k and coupling blocks sum_i X^i V X^(k-1-i); the series starts at k = 3).
+        # ad is built here from matrix commutators of hand-written generators, not from the library.
+        for kind, xi in (("se3", np.concatenate([rho, x])), ("se23", np.concatenate([rho, -rho, x]))):
+            ad = ad_numeric(kind, xi)
+            d_ = ad.shape[0]
+            bj = nx ** 3 + nx ** 2 * 2 * float(np.linalg.norm(rho)) + EPS
+
+            def enclj(key, got, f2, what):
+                dd = float(np.max(np.abs(np.asarray(got) - f2))) if np.all(np.isfinite(got)) else float("inf")
+                if not dd <= bj:
+                    run.violation(key, what + f" (|f - f2| = {dd:.3e} > {bj:.3e})", {"tv": tv, "xi": xi.tolist()})
+                else:
+                    run.err(dd)
+            Jl, Jli, Jr, Jri, Jlm = call(c05.f_alg(cache, kind), xi)
+            I_ = np.eye(d_); a2 = ad @ ad
+            enclj(f"{kind}/left_jacobian/enclosure/k{k}", Jl, I_ + ad / 2 + a2 / 6, "J_l outside its second-order enclosure")
+            enclj(f"{kind}/right_jacobian/enclosure/k{k}", Jr, I_ - ad / 2 + a2 / 6, "J_r outside its second-order enclosure")
+            enclj(f"{kind}/left_jacobian_inv/enclosure/k{k}", Jli, I_ - ad / 2 + a2 / 12, "J_l^-1 outside its second-order enclosure")
+            enclj(f"{kind}/right_jacobian_inv/enclosure/k{k}", Jri, I_ + ad / 2 + a2 / 12, "J_r^-1 outside its second-order enclosure")
         # SE(2): theta = 2^-k
         thx = float(np.ldexp(1.0, -k))
         Xg = L.se2.elem(ca.DM([1.0, -0.5, thx])).exp(L.SE2)
